@@ -37,5 +37,8 @@ def run(tier, seed, faults=()):
 
 
 def replay(path, tier, seed):
-    from ..adapters.forms import replay_xy
-    return cm.replay_file(Report("C14", tier, seed, "model_checking"), path, replay_xy, "GenForms")
+    import json
+    from ..adapters import forms
+    src = json.load(open(path)).get("source", "xy")
+    kind = next((k for k in ("indexed", "hist", "unbinned") if src.startswith(k)), "xy")
+    return cm.replay_file(Report("C14", tier, seed, "model_checking"), path, getattr(forms, "replay_" + kind), "GenForms")
